@@ -372,6 +372,7 @@ type c12flight struct {
 	parked   chan struct{}
 	release  chan struct{}
 	done     chan string
+	released bool
 	events   []string // cache counters bumped on behalf of this query
 	acquired int      // generation current when the query acquired its reader (-1 = not yet)
 }
@@ -400,8 +401,9 @@ func c12hook(curGen *int) func(string) {
 			return
 		}
 		f.passed = true
+		rel := f.release // read before handing control back: the scheduler owns the flight afterwards
 		f.parked <- struct{}{}
-		<-f.release
+		<-rel
 	}
 }
 
@@ -492,10 +494,10 @@ func c12sched(backend string, evs []string) (string, string) {
 	defer func() {
 		// release whatever is still parked so that no goroutine outlives the op
 		for _, fl := range parkedOrder {
-			if fl.release != nil {
+			if !fl.released {
 				c12cur = fl
+				fl.released = true
 				close(fl.release)
-				fl.release = nil
 				<-fl.done
 			}
 		}
@@ -531,15 +533,18 @@ func c12sched(backend string, evs []string) (string, string) {
 				hm = "expired"
 			}
 		}
+		if sequential {
+			// the property itself: the cache-less twin, fed the same history, answers the same
+			qq := *fl.q
+			if u := ask(U, &qq); u != resp {
+				fail("cached-differs-from-uncached@" + strconv.Itoa(len(out)))
+			}
+		}
 		var match []string
-		oldest := -1
 		for g, w := range world {
 			qq := *fl.q
 			if ask(w.h, &qq) == resp {
 				match = append(match, strconv.Itoa(g))
-				if oldest < 0 {
-					oldest = g
-				}
 			}
 		}
 		stamp := strings.Join(match, "+")
@@ -556,12 +561,6 @@ func c12sched(backend string, evs []string) (string, string) {
 				if newest < fl.acquired {
 					fail(fmt.Sprintf("stale@%s(gen%d<acquired%d)", fl.label, newest, fl.acquired))
 				}
-			}
-		}
-		if sequential {
-			qq := *fl.q
-			if u := ask(U, &qq); u != resp {
-				fail("cached-differs-from-uncached@" + strconv.Itoa(len(out)))
 			}
 		}
 		qq := *fl.q
@@ -582,8 +581,10 @@ func c12sched(backend string, evs []string) (string, string) {
 			parkedOrder = append(parkedOrder, fl)
 		case resp := <-fl.done:
 			c12cur = nil
-			fl.release = nil
+			fl.released = true
 			completed(fl, resp, parkAt == "")
+		case <-time.After(30 * time.Second):
+			panic("c12: query neither parked nor finished")
 		}
 	}
 	for _, ev := range evs {
@@ -611,13 +612,18 @@ func c12sched(backend string, evs []string) (string, string) {
 			start(p[0][1:], parseQuery(p[4]), c12points[pt])
 		case strings.HasPrefix(p[0], "c") && len(p) == 1:
 			fl := flights[p[0][1:]]
-			if fl == nil || fl.release == nil {
+			if fl == nil || fl.released {
 				continue
 			}
 			c12cur = fl
+			fl.released = true
 			close(fl.release)
-			fl.release = nil
-			resp := <-fl.done
+			var resp string
+			select {
+			case resp = <-fl.done:
+			case <-time.After(30 * time.Second):
+				panic("c12: released query did not finish")
+			}
 			c12cur = nil
 			completed(fl, resp, false)
 		}
